@@ -11,7 +11,8 @@ import pandas as pd
 
 from . import api
 from .fworld import rng_of
-from .monitors import digest, snapshot_digest, InitialSize, KernelShim, integrator_state
+from .monitors import (digest, snapshot_digest, InitialSize, KernelShim, integrator_state,
+                       obj_attrs, has_attrs)
 from .shrink import ddmin_list
 
 PROP = 'C19'
@@ -98,9 +99,8 @@ def _state_digest(obj, ignore=()):
     """
     if type(obj).__name__ == 'Integrator' and hasattr(obj, 'trajectory'):
         return {'<state>': snapshot_digest(integrator_state(obj))}
-    if hasattr(obj, '__dict__') and not isinstance(obj, (pd.DataFrame, pd.Series, np.ndarray,
-                                                          type)) and not callable(obj):
-        return {k: snapshot_digest(v) for k, v in vars(obj).items()
+    if has_attrs(obj):
+        return {k: snapshot_digest(v) for k, v in obj_attrs(obj).items()
                 if not k.startswith('_') and k not in ignore}
     return {'<value>': snapshot_digest(obj)}
 
@@ -136,8 +136,11 @@ def _flatten(res, out):
         out.append(np.asarray(res.as_quat()))
     elif type(res).__name__ == 'Integrator' and hasattr(res, 'trajectory'):
         _flatten(integrator_state(res), out)    # observable state only
-    elif hasattr(res, '__dict__') and not callable(res) and not isinstance(res, type):
-        _flatten({k: v for k, v in vars(res).items() if k != 'rng'}, out)
+    elif has_attrs(res):
+        # public attributes only: private ones are implementation detail (and need not be
+        # comparable between argument forms)
+        _flatten({k: v for k, v in obj_attrs(res).items()
+                  if k != 'rng' and not k.startswith('_')}, out)
     return out
 
 
